@@ -11,10 +11,10 @@ import (
 func runC09(cfg *config) *Report {
 	rep := newReport("C09", cfg.tier, cfg.seed)
 	r := newRng(cfg.seed + 9000)
-	rep.Rule = "generated valid files x every record of the file x every field of that record x each class of invalid value (blank, all zeros, a code outside any table '~', an illegal character 0x01, a zero date); each faulted file is (a) built (every CashLetter.Create, File.Create) and validated, (b) encoded as JSON and loaded with FileFromJSON; whenever (a) or (b) accepts, the file is written (ASCII, newline) and read back: the reader must accept; non-trivial = the fault makes the record invalid on its own; distinct by (record type, field, class)"
-	nFiles := 3
+	rep.Rule = "generated valid files x every record of the file x every field of that record x each class of invalid value (blank, all zeros, a single zero, a code outside any table '~', an illegal character 0x01, a zero date); each faulted file is (a) built (every CashLetter.Create, File.Create) and validated, (b) encoded as JSON and loaded with FileFromJSON; whenever (a) or (b) accepts, the file is written (ASCII, newline) and read back: the reader must accept; non-trivial = the fault makes the record invalid on its own; distinct by (record type, field, class)"
+	nFiles := 6
 	if cfg.tier == "thorough" {
-		nFiles = 12
+		nFiles = 18
 	}
 	classes := []struct {
 		name string
@@ -37,6 +37,13 @@ func runC09(cfg *config) *Report {
 			}
 			return FV{}, false
 		}},
+		{"short-zero", func(w WField) (FV, bool) {
+			// a zero written shorter than the column: rendered as all zeros by the zero-filling converters
+			if kindOfConv(w.Conv) == 'S' && w.Width > 1 {
+				return FV{K: 'S', S: []byte("0")}, true
+			}
+			return FV{}, false
+		}},
 		{"bad-code", func(w WField) (FV, bool) {
 			if kindOfConv(w.Conv) == 'S' && w.Width > 0 {
 				return FV{K: 'S', S: []byte(strings.Repeat("~", min(w.Width, 2)))}, true
@@ -56,7 +63,7 @@ func runC09(cfg *config) *Report {
 	seen := map[string]bool{}
 	var corrOps, corrWant, corrDesc []string
 	for fi := 0; fi < nFiles; fi++ {
-		f, err := genFile(r, genOpts{maxCL: 1, maxBundles: 2, maxItems: 2, mutateP: 20})
+		f, err := genFile(r, genOpts{maxCL: 1, maxBundles: 2, maxItems: 2, mutateP: 20, kind: 1 + fi%2})
 		if err != nil {
 			fi--
 			continue
@@ -64,7 +71,7 @@ func runC09(cfg *config) *Report {
 		// shapes in which a record is reached by the build through a different path: an item without
 		// addenda but with image views / with addenda and without views; a cash letter with credit (61)
 		// records and no credit items (62) / the reverse
-		variant := fi % 3
+		variant := (fi / 2) % 3
 		if variant < 2 {
 			for ci := range f.CashLetters {
 				cl := &f.CashLetters[ci]
@@ -150,7 +157,7 @@ func runC09(cfg *config) *Report {
 						continue
 					}
 					key := recName + "." + w.Src + "/" + cl.name
-					if seen[fmt.Sprint(variant, key)] && cfg.tier != "thorough" {
+					if seen[fmt.Sprint(variant, fi%2, key)] && cfg.tier != "thorough" {
 						continue
 					}
 					// fresh copy of the file through JSON
@@ -172,14 +179,17 @@ func runC09(cfg *config) *Report {
 					}
 					old := getField(target, w.Src, kindOfConv(w.Conv))
 					setField(target, w.Src, fv)
+					// every faulted value is judged - also one the record's own Validate() lets through, since that
+					// verdict is part of what is being checked; it only decides what counts as non-trivial
 					invalidAlone := realValidate(target) != "ok"
-					if !invalidAlone {
-						setField(target, w.Src, old)
-						continue
-					}
-					seen[fmt.Sprint(variant, key)] = true
+					_ = old
+					seen[fmt.Sprint(variant, fi%2, key)] = true
 					rep.Evaluations++
-					rep.nontrivial(fmt.Sprint(variant, key))
+					if invalidAlone {
+						rep.nontrivial(fmt.Sprint(variant, fi%2, key))
+					} else {
+						rep.count("fault-valid-on-its-own")
+					}
 					rep.count("class:" + cl.name)
 					rep.count("record:" + recName)
 					beforeBuild := dumpFile(g)
